@@ -1401,10 +1401,11 @@ Section G.
 
   (* the state after reading the written file *)
   Lemma read_state2_ok : exists M gs, write2 false g lvl = Some (wfile2 gs) /\
+    cntp M + nleaf gs <= gsz gs /\
     exists st fl, read_fields2 false (wfile2 gs) st02 gs = Some (st, fl) /\ Inv M st /\
       Forall2 (relE st) (kfs (g_fields g)) fl.
   Proof.
-    destruct write2_ok as (M & gs & Wr & HF & HM0 & HP3 & HC). exists M, gs. split; [exact Wr|].
+    destruct write2_ok as (M & gs & Wr & HF & HM0 & HP3 & HC). exists M, gs. split; [exact Wr|]. split; [exact HC|].
     assert (Hes : forall p l, In (p, GLeaf l) (kfs (g_fields g)) -> wl p = true /\ (1 <= gl_level l <= 3)%Z).
     { intros p l H. apply filter_In in H. destruct H as [H E]. split; [eapply wl_in; eassumption|]. apply (gwf_leaf g W p l H). }
     destruct (read_fields2_ok M (wfile2 gs) HF HM0 HP3 HC _ _ HF (fun x H => H) Hes st02 (Inv_st02 M)) as (st & fl & R & I & _ & FE).
@@ -1413,7 +1414,7 @@ Section G.
 
   Theorem graph_roundtrip_sec : exists f, write2 false g lvl = Some f /\ read2 false f = Some (expected lvl g).
   Proof.
-    destruct read_state2_ok as (M & gs & Wr & st & fl & R & I & FE).
+    destruct read_state2_ok as (M & gs & Wr & HC & st & fl & R & I & FE).
     exists (wfile2 gs). split; [exact Wr|].
     unfold read2. cbn [f2_groups f2_meta f2_vars f2_numobs wfile2]. rewrite R.
     rewrite (read_meta_spec _ (gwf_meta g W)).
@@ -1425,9 +1426,139 @@ Section G.
     destruct ge as [l|]; [|subst r; reflexivity].
     destruct H2 as (id & -> & Hm & Hw). f_equal.
     destruct (inv_w _ _ I p id Hw Hm) as [L Rp].
-    symmetry. eapply abs_unfold; [exact I|exact FE|exact Rp| |].
+    symmetry. eapply (abs_unfold M (wfile2 gs) HC); [exact I|exact FE|exact Rp| |].
     - rewrite (inv_len _ _ I). lia.
     - pose proof (rkT_le (KF p)). lia.
   Qed.
 
+
+  (* a reference to a written field is, after reading, a reference to THE object of that field *)
+  Theorem graph_reference_identity_sec : forall f st fl,
+    write2 false g lvl = Some f -> read_fields2 false f st02 (f2_groups f) = Some (st, fl) ->
+    forall p nd a q, klookup (KF p) (g_objs g) = Some nd -> wl p = true -> In (a, KF q) (n_refs nd) -> wl q = true ->
+    exists k v u m idp k' v' u' m' idq o,
+      In (p, RLeaf2 k v u m idp) fl /\ In (q, RLeaf2 k' v' u' m' idq) fl /\
+      nlookup idp (heap2 st) = Some o /\ In (a, idq) (r_refs o).
+  Proof.
+    intros f st fl Wr Rd p nd a q K Wp Ha Wq.
+    destruct read_state2_ok as (M & gs & Wr' & HC & st' & fl' & R & I & FE).
+    rewrite Wr' in Wr. inversion Wr; subst f. clear Wr. cbn [f2_groups wfile2] in Rd.
+    rewrite R in Rd. inversion Rd; subst st' fl'. clear Rd.
+    destruct (fl_of_field _ _ FE p Wp) as (k & v & u & m & idp & Hfp & Mp).
+    destruct (fl_of_field _ _ FE q Wq) as (k' & v' & u' & m' & idq & Hfq & Mq).
+    destruct (inv_w _ _ I p idp Wp Mp) as [_ Rp]. unfold repS in Rp.
+    inversion Rp as [k0 id0 nd' ro K' Hh Hp F]; subst k0 id0. rewrite K in K'. inversion K'; subst nd'.
+    destruct (Forall2_in_l _ _ _ _ F Ha) as ([a' id'] & Hi & (X1 & _ & X3 & _)). cbn [fst snd] in *. subst a'.
+    rewrite (X3 q (wkey_KF q Wq)) in Mq. inversion Mq; subst id'.
+    exists k, v, u, m, idp, k', v', u', m', idq, ro. auto.
+  Qed.
+
+  (* different written fields are read as different objects *)
+  Theorem graph_field_ids_distinct_sec : forall f st fl,
+    write2 false g lvl = Some f -> read_fields2 false f st02 (f2_groups f) = Some (st, fl) ->
+    forall p1 k1 v1 u1 m1 id1 p2 k2 v2 u2 m2 id2,
+    In (p1, RLeaf2 k1 v1 u1 m1 id1) fl -> In (p2, RLeaf2 k2 v2 u2 m2 id2) fl -> p1 <> p2 -> id1 <> id2.
+  Proof.
+    intros f st fl Wr Rd p1 k1 v1 u1 m1 id1 p2 k2 v2 u2 m2 id2 H1 H2 Ne Eq.
+    destruct read_state2_ok as (M & gs & Wr' & HC & st' & fl' & R & I & FE).
+    rewrite Wr' in Wr. inversion Wr; subst f. clear Wr. cbn [f2_groups wfile2] in Rd.
+    rewrite R in Rd. inversion Rd; subst st' fl'. clear Rd.
+    destruct (fl_leaf_inv _ _ FE _ _ _ _ _ _ H1) as [M1 W1]. destruct (fl_leaf_inv _ _ FE _ _ _ _ _ _ H2) as [M2 W2].
+    subst id2. apply Ne. eapply (inv_dist _ _ I); eassumption.
+  Qed.
+
 End G.
+
+(* ------------------------------------------------------------------ the round trip *)
+Theorem graph_roundtrip_lemma : forall g lvl rank, gwf g = true -> granked rank g ->
+  exists f, write2 false g lvl = Some f /\ read2 false f = Some (expected lvl g).
+Proof. intros g lvl rank W Rk. exact (graph_roundtrip_sec g lvl rank W Rk). Qed.
+
+Theorem graph_reference_identity_lemma : forall g lvl rank f st fl, gwf g = true -> granked rank g ->
+  write2 false g lvl = Some f -> read_fields2 false f st02 (f2_groups f) = Some (st, fl) ->
+  forall p nd a q, klookup (KF p) (g_objs g) = Some nd -> written_leaf lvl (g_fields g) p = true ->
+    In (a, KF q) (n_refs nd) -> written_leaf lvl (g_fields g) q = true ->
+  exists k v u m idp k' v' u' m' idq o,
+    In (p, RLeaf2 k v u m idp) fl /\ In (q, RLeaf2 k' v' u' m' idq) fl /\
+    nlookup idp (heap2 st) = Some o /\ In (a, idq) (r_refs o).
+Proof. intros g lvl rank f st fl W Rk. exact (graph_reference_identity_sec g lvl rank W Rk f st fl). Qed.
+
+Theorem graph_field_ids_distinct_lemma : forall g lvl rank f st fl, gwf g = true -> granked rank g ->
+  write2 false g lvl = Some f -> read_fields2 false f st02 (f2_groups f) = Some (st, fl) ->
+  forall p1 k1 v1 u1 m1 id1 p2 k2 v2 u2 m2 id2,
+  In (p1, RLeaf2 k1 v1 u1 m1 id1) fl -> In (p2, RLeaf2 k2 v2 u2 m2 id2) fl -> p1 <> p2 -> id1 <> id2.
+Proof. intros g lvl rank f st fl W Rk. exact (graph_field_ids_distinct_sec g lvl rank W Rk f st fl). Qed.
+
+(* ------------------------------------------------------------------ non-vacuity *)
+Local Open Scope string_scope.
+
+Definition ex_pl (c : string) : payload := {| p_class := c; p_sattrs := []; p_main := None; p_extra := [] |}.
+Definition ex_leaf (lv : Z) : gentry := GLeaf {| gl_kind := "position"; gl_level := lv; gl_unit := None; gl_mult := 1%Z |}.
+
+(* [a] and [b] share the private object KP 0, which refers to the private KP 1; [a] refers to the field [c],
+   which is below the write level 3 *)
+Definition ex_g : gdataset :=
+  {| g_fields := [(["a"], ex_leaf 3%Z); (["b"], ex_leaf 3%Z); (["c"], ex_leaf 1%Z)];
+     g_objs := [(KF ["a"], {| n_pl := ex_pl "A"; n_final := true; n_refs := [("other", KP 0); ("ref", KF ["c"])] |});
+                (KF ["b"], {| n_pl := ex_pl "B"; n_final := false; n_refs := [("other", KP 0)] |});
+                (KF ["c"], {| n_pl := ex_pl "C"; n_final := false; n_refs := [] |});
+                (KP 0, {| n_pl := ex_pl "P0"; n_final := true; n_refs := [("inner", KP 1)] |});
+                (KP 1, {| n_pl := ex_pl "P1"; n_final := false; n_refs := [] |})];
+     g_meta := []; g_vars := []; g_numobs := 0%Z; g_version := "1" |}.
+
+Definition ex_rank (k : key) : nat :=
+  match k with
+  | KF (s :: _) => if String.eqb s "c" then 1%nat else 3%nat
+  | KP O => 2%nat
+  | _ => 1%nat
+  end.
+
+Example ex_gwf : gwf ex_g = true.
+Proof. vm_compute. reflexivity. Qed.
+
+Example ex_granked : granked ex_rank ex_g.
+Proof.
+  intros k nd a k' Hin Ha. cbn in Hin.
+  repeat (destruct Hin as [Hin|Hin];
+          [inversion Hin; subst; cbn in Ha; repeat (destruct Ha as [Ha|Ha]; [inversion Ha; subst; cbn; lia|]); contradiction|]).
+  contradiction.
+Qed.
+
+Example ex_roundtrips : roundtrips2 false ex_g 3%Z = true.
+Proof. vm_compute. reflexivity. Qed.
+
+Example ex_roundtrip_thm : exists f, write2 false ex_g 3%Z = Some f /\ read2 false f = Some (expected 3%Z ex_g).
+Proof. exact (graph_roundtrip_lemma ex_g 3%Z ex_rank ex_gwf ex_granked). Qed.
+
+(* on-demand reads: [a] refers to the later field [b], whose reference to the shared private object is stored as the
+   name of a sub group of [a] that has not been read yet (it is read on demand, and again by its owner) *)
+Definition ex_g2 : gdataset :=
+  {| g_fields := [(["a"], ex_leaf 3%Z); (["b"], ex_leaf 3%Z)];
+     g_objs := [(KF ["a"], {| n_pl := ex_pl "A"; n_final := true; n_refs := [("peer", KF ["b"]); ("other", KP 0)] |});
+                (KF ["b"], {| n_pl := ex_pl "B"; n_final := false; n_refs := [("other", KP 0)] |});
+                (KP 0, {| n_pl := ex_pl "P0"; n_final := true; n_refs := [] |})];
+     g_meta := []; g_vars := []; g_numobs := 0%Z; g_version := "1" |}.
+
+Definition ex_rank2 (k : key) : nat :=
+  match k with
+  | KF (s :: _) => if String.eqb s "a" then 3%nat else 2%nat
+  | _ => 1%nat
+  end.
+
+Example ex2_gwf : gwf ex_g2 = true.
+Proof. vm_compute. reflexivity. Qed.
+
+Example ex2_granked : granked ex_rank2 ex_g2.
+Proof.
+  intros k nd a k' Hin Ha. cbn in Hin.
+  repeat (destruct Hin as [Hin|Hin];
+          [inversion Hin; subst; cbn in Ha; repeat (destruct Ha as [Ha|Ha]; [inversion Ha; subst; cbn; lia|]); contradiction|]).
+  contradiction.
+Qed.
+
+Example ex2_roundtrips : roundtrips2 false ex_g2 3%Z = true.
+Proof. vm_compute. reflexivity. Qed.
+
+Print Assumptions graph_roundtrip_lemma.
+Print Assumptions graph_reference_identity_lemma.
+Print Assumptions graph_field_ids_distinct_lemma.
